@@ -13,7 +13,7 @@ import shutil
 import time
 import warnings
 from collections import defaultdict
-from collections.abc import Iterable
+from collections.abc import Iterable, Mapping
 from contextlib import contextmanager
 from copy import deepcopy
 from datetime import timedelta
@@ -1309,6 +1309,10 @@ class Project:
             try:
                 # First, check if we can look up the state point.
                 statepoint = self._get_statepoint(job_id, validate=False)
+                if not isinstance(statepoint, Mapping):
+                    # Valid JSON, but not a state point: nothing to recover from.
+                    del self._sp_cache[job_id]
+                    raise JobsCorruptedError([job_id])
                 # Check if state point and id correspond.
                 correct_id = calc_id(statepoint)
                 if correct_id != job_id:
